@@ -106,6 +106,30 @@ def generate(rng, tier):
         for sp in range(4):
             P.add('AAdd', sp, a, b); P.add('ASub', sp, a, b); P.add('AMul', sp, a, b); P.add('ADivA', sp, a, b)
         cases.append(Case(P, [('c01_walk', [['#', P.to_json()]])], 'spellings'))
+    # nearly cancelling sums of values that are RESULTS of other operations: a value against its own round trip
+    # (inverse of the inverse, scaled there and back, multiplied and divided), magnitudes ulps apart, whole-turn twins -
+    # in both orders and all spellings of + and -; the cancellation branch is where a signed residue can leak into a magnitude
+    m2 = 40 if tier == 'quick' else 1000
+    for j in range(m2):
+        r = rng.fork(2 * 10**7 + j)
+        P = Prog()
+        ma, mb = mag_pair(r, False) if r.chance(0.4) else (mag_dom(r, False),) * 2
+        ang = canon_angle(P, r, r.chance(0.3))
+        g = P.add('GNewAngle', P.f(ma), ang)
+        k = r.choice([0.3, 3.0, 7.0, 1e-3, 1.1, r.logu(1e-3, 1e3)])
+        kind = r.below(5)
+        if kind == 0: t = P.add('GInv', P.add('GInv', g))
+        elif kind == 1: t = P.add('GScale', P.add('GScale', g, P.f(k)), P.f(1.0 / k))
+        elif kind == 2:
+            h = canon_geonum(P, r, False, False)
+            t = P.add('GDiv', 0, P.add('GMul', 0, g, h), h)
+        elif kind == 3: t = P.add('GNewAngle', P.f(mb), ang)
+        else: t = P.add('GRotate', P.add('GNewAngle', P.f(mb), ang), P.add('ANewBlade', P.u(4 * r.choice([1, 2, 250000])), P.f(0.0), P.f(1.0)))
+        for sp in range(4):
+            P.add('GSub', sp, g, t); P.add('GSub', sp, t, g)
+        ng, nt = P.add('GNeg', g), P.add('GNeg', t)
+        P.add('GAdd', r.below(4), g, nt); P.add('GAdd', r.below(4), nt, g); P.add('GAdd', r.below(4), ng, t); P.add('GAdd', r.below(4), t, ng)
+        cases.append(Case(P, [('c01_walk', [['#', P.to_json()]])], 'round-trip-cancel'))
     return cases
 
 LEVEL_TEXT = ('Kernel-checked theorems about the model: Angle addition, subtraction and every blade-step operator map canonical angles to canonical angles (remainder in [0, pi/2 - 1e-10], blade >= 0) for ALL canonical inputs; '
